@@ -840,8 +840,8 @@ func (n *AlertNode) restoreEvent(id string) (alert.Level, time.Time) {
 		}
 	}
 	if topicState.Level != anonTopicState.Level {
-		if anonFound && topicFound {
-			// Anon topic takes precedence
+		if anonFound && n.hasTopic() {
+			// Anon topic takes precedence, also when the topic does not know the event yet
 			if err := n.et.tm.AlertService.UpdateEvent(n.topic, anonTopicState); err != nil {
 				n.diag.Error("failed to update topic event state", err, keyvalue.KV("topic", n.topic), keyvalue.KV("event", id))
 			}
